@@ -3,6 +3,7 @@ mod c05;
 mod c06;
 mod c09;
 mod c15;
+mod c16;
 mod tirgen;
 mod gal;
 mod rng;
@@ -112,6 +113,7 @@ fn main() {
         ("run", "C06") => c06::run(&mut ctx, false),
         ("run", "C07") => c06::run(&mut ctx, true),
         ("run", "C09") => c09::run(&mut ctx),
+        ("run", "C16") => c16::run(&mut ctx),
         ("extract", _) => {
             // translators: none registered yet
             return;
